@@ -14,6 +14,7 @@ import PdbVerif.Proofs.GenSimIrmsd
 import PdbVerif.Proofs.GenSimIrmsdPair
 import PdbVerif.Proofs.GenSimExport
 import PdbVerif.Proofs.GenSimExportFiles
+import PdbVerif.Proofs.GenSimOrder
 
 namespace Props.C07K2
 
@@ -74,6 +75,30 @@ theorem gens_irmsd_export_value : type_of% @Proofs.GenSim.gens_irmsd_export_valu
 theorem gens_lrmsd_export_stages : type_of% @Proofs.GenSim.gens_lrmsd_export_stages := @Proofs.GenSim.gens_lrmsd_export_stages
 /-- with one value per row, `update_column` replaces the column row by row -/
 theorem updateColumn_zipWith : type_of% @Proofs.GenSim.updateColumn_zipWith := @Proofs.GenSim.updateColumn_zipWith
+
+/-! ### any admissible set order: the value (Proofs/GenSimOrder.lean) -/
+
+/-- the translated kernel glue of the SQL routes is `Model.Rmsd.radicand` on the pair lists -/
+theorem sqlKernel_eq_radicand : type_of% @Proofs.GenSim.sqlKernel_eq_radicand := @Proofs.GenSim.sqlKernel_eq_radicand
+/-- look-ups over a permutation of the keys succeed together, results permuted the same way -/
+theorem mapM_perm : type_of% @Proofs.GenSim.mapM_perm := @Proofs.GenSim.mapM_perm
+/-- L-RMSD, every `OrderOK` order: the kernel receives a simultaneous permutation of the model's pair lists -/
+theorem gens_lrmsd_pairs_any_order : type_of% @Proofs.GenSim.gens_lrmsd_pairs_any_order := @Proofs.GenSim.gens_lrmsd_pairs_any_order
+/-- … and with an optimal kernel the value is a fit-then-evaluate value of the model's pairs -/
+theorem gens_lrmsd_value_any_order : type_of% @Proofs.GenSim.gens_lrmsd_value_any_order := @Proofs.GenSim.gens_lrmsd_value_any_order
+/-- … of the DEFINITION's pairs on a consistent pair -/
+theorem gens_lrmsd_value_is_definition : type_of% @Proofs.GenSim.gens_lrmsd_value_is_definition := @Proofs.GenSim.gens_lrmsd_value_is_definition
+/-- i-RMSD, every `OrderOK` order: generated = the model's radicand on the model's pairs -/
+theorem gens_irmsd_radicand_any_order : type_of% @Proofs.GenSim.gens_irmsd_radicand_any_order := @Proofs.GenSim.gens_irmsd_radicand_any_order
+/-- … the minimum over rigid motions with an optimal kernel -/
+theorem gens_irmsd_value_any_order : type_of% @Proofs.GenSim.gens_irmsd_value_any_order := @Proofs.GenSim.gens_irmsd_value_any_order
+
+/-- non-vacuity: the model returns pair lists for the two-chain structure against itself (one fitting pair, one evaluation pair), and the
+    identity kernel is optimal on identical points (`kernelOptimalAt_of_equal`, over `Rat`) -/
+example : (match Model.Rmsd.lrmsdSql (.ok [fxAtom 1 "CA" "A" 1 0, fxAtom 2 "CA" "B" 1 3]) (.ok [fxAtom 1 "CA" "A" 1 0, fxAtom 2 "CA" "B" 1 3]) true with
+    | .value f e => f.length == 1 && e.length == 1 | _ => false) = true := by decide +kernel
+example : Proofs.Msd.KernelOptimalAt (fun _ _ => .ok Py.Mat3.one) [((⟨1, 2, 3⟩ : Py.Vec3 Rat), (⟨1, 2, 3⟩ : Py.Vec3 Rat)), (⟨0, 1, 0⟩, ⟨0, 1, 0⟩)] :=
+  Proofs.Msd.kernelOptimalAt_of_equal _ (by simp)
 
 /-- non-vacuity of the route: two chains 3 Å apart, identical decoy, identity rotation from the kernel parameter → radicand 0; a decoy that
     lacks chain B's atom (different chain sets) → ValueError; a decoy whose B atom has another NAME (not found by `index`) → the handler strikes
